@@ -214,11 +214,16 @@ fn main() {
             }
             "binding" => {
                 // native oracle for C02: does altering one element of the statement change the set of
-                // boundary assertions (main segment, and auxiliary segment for fixed challenges)?
+                // boundary assertions (main segment, auxiliary segment for fixed challenges) or the
+                // elements that seed the verifier's random coin?
+                use winter_math::ToElements;
+                use miden_core::{crypto::hash::RpoDigest, Kernel};
                 let ins = u64s(&job["inputs"]);
                 let outs = u64s(&job["outputs"]);
                 let ovf = u64s(&job["overflow_addrs"]);
-                let dump = |i: &[u64], o: &[u64], a: &[u64]| -> Vec<String> {
+                // program hash (4 elements) followed by kernel procedure hashes (4 elements each)
+                let prog: Vec<u64> = (0..12).map(|k| 1000 + 7 * k as u64).collect();
+                let dump = |i: &[u64], o: &[u64], a: &[u64], p: &[u64]| -> Vec<String> {
                     let air = make_air(i, o, a, 64);
                     let mut v: Vec<String> = air
                         .get_assertions()
@@ -228,14 +233,24 @@ fn main() {
                     let mut are = winter_air::AuxTraceRandElements::<Felt>::new();
                     are.add_segment_elements((0..trace::AUX_TRACE_RAND_ELEMENTS).map(|k| Felt::new(0x9e3779b97f4a7c15u64.wrapping_mul(k as u64 + 3) % 0xffffffff00000001)).collect());
                     v.extend(air.get_aux_assertions(&are).iter().map(|x| format!("a:{}:{}:{}", x.column(), x.first_step(), x.values()[0])));
+                    // coin seed: PublicInputs::to_elements with a two-procedure kernel
+                    let dg = |c: &[u64]| RpoDigest::new([Felt::new(c[0]), Felt::new(c[1]), Felt::new(c[2]), Felt::new(c[3])]);
+                    let kernel = Kernel::new(&[dg(&p[4..8]), dg(&p[8..12])]).expect("kernel");
+                    let pinfo = ProgramInfo::new(dg(&p[0..4]), kernel);
+                    let si = StackInputs::try_from_values(i.iter().cloned()).expect("stack inputs");
+                    let so = if o.is_empty() { StackOutputs::default() } else { StackOutputs::new(o.to_vec(), a.to_vec()).expect("stack outputs") };
+                    let mut seed: Vec<String> = PublicInputs::new(pinfo, si, so).to_elements().iter().map(|e| e.to_string()).collect();
+                    seed.sort(); // kernel hashes are kept sorted: compare as a multiset
+                    v.push(format!("seed:{}", seed.join(",")));
                     v
                 };
-                let base = dump(&ins, &outs, &ovf);
+                let base = dump(&ins, &outs, &ovf, &prog);
                 let mut unbound: Vec<String> = Vec::new();
                 let bump = |v: &[u64], k: usize| -> Vec<u64> { let mut w = v.to_vec(); w[k] = (w[k] + 1) % 0xffffffff00000001; w };
-                for k in 0..ins.len() { if dump(&bump(&ins, k), &outs, &ovf) == base { unbound.push(format!("input {k}")); } }
-                for k in 0..outs.len() { if dump(&ins, &bump(&outs, k), &ovf) == base { unbound.push(format!("output {k}")); } }
-                for k in 0..ovf.len() { if dump(&ins, &outs, &bump(&ovf, k)) == base { unbound.push(format!("overflow address {k}")); } }
+                for k in 0..ins.len() { if dump(&bump(&ins, k), &outs, &ovf, &prog) == base { unbound.push(format!("input {k}")); } }
+                for k in 0..outs.len() { if dump(&ins, &bump(&outs, k), &ovf, &prog) == base { unbound.push(format!("output {k}")); } }
+                for k in 0..ovf.len() { if dump(&ins, &outs, &bump(&ovf, k), &prog) == base { unbound.push(format!("overflow address {k}")); } }
+                for k in 0..prog.len() { if dump(&ins, &outs, &ovf, &bump(&prog, k)) == base { unbound.push(if k < 4 { format!("program hash element {k}") } else { format!("kernel hash element {}", k - 4) }); } }
                 out.push(json!({"status": "ok", "assertions": base.len(), "unbound": unbound}));
             }
             "aux_transition" => {
